@@ -109,6 +109,7 @@ func checkC01(c *Ctx) {
 		f := c.analyseWrapper(w)
 		c.Check(f.Forwarding, "wrapper-is-transparent", w.Key, p.Pos(w.Named.Obj().Pos()), "WriteHeader forwards the status on every path",
 			"the wrapper on the transparent path does not forward WriteHeader on every path")
+		c.rwHeaderTypestate(w)
 		for name, ts := range f.traces {
 			for _, t := range ts {
 				for _, it := range t.Items {
@@ -361,6 +362,30 @@ func checkC05(c *Ctx) {
 			return ""
 		})
 
+	if wrr != nil {
+		regions := c.healthyRegions(wrr)
+		var bad []string
+		n := 0
+		instrsOf(wrr, func(in ssa.Instruction) {
+			if k, st := storeKey(in); k == cw && strings.HasSuffix(p.Desc(st.Val, nil), "+ fld:loadbalancer.Backend.Weight)") {
+				n++
+				if len(regions[st.Block()]) == 0 {
+					bad = append(bad, p.InstrPos(st)+": currentWeight grows for a backend that was not found healthy: an ejected backend accumulates credit while it is down and receives a burst proportional to its downtime when it recovers")
+				}
+			}
+			if b, ok := in.(*ssa.BinOp); ok && b.Op.String() == "+" && p.Desc(b.Y, nil) == "fld:loadbalancer.Backend.Weight" {
+				if _, isPhi := b.X.(*ssa.Phi); isPhi && len(regions[b.Block()]) == 0 {
+					bad = append(bad, p.InstrPos(b)+": the total weight includes backends that were not found healthy")
+				}
+			}
+		})
+		if n == 0 {
+			bad = append(bad, "no backend ever gains its weight")
+		}
+		c.Check(len(bad) == 0, "wrr-credit-only-when-eligible", "loadbalancer.(*WeightedRoundRobinStrategy).NextBackend", p.Pos(wrr.Pos()),
+			"currentWeight and the eligible total grow only under the health test", strings.Join(bad, "; "))
+	}
+
 	// 3. least connections
 	lc := p.Fn("internal/loadbalancer", "LeastConnectionsStrategy", "NextBackend")
 	construct = "loadbalancer.(*LeastConnectionsStrategy).NextBackend"
@@ -378,9 +403,9 @@ func checkC05(c *Ctx) {
 			if !strings.Contains(r.X+r.Y, "GetActiveConnections(") {
 				continue
 			}
-			o, okO := r.Orient("GetActiveConnections(", "")
-			if !okO {
-				o = r
+			o := r
+			if strings.HasPrefix(r.X, "phi(") && !strings.HasPrefix(r.Y, "phi(") {
+				o = r.Flip() // candidate on the left, running minimum on the right
 			}
 			found = true
 			if !(o.Pred == "" && o.Lo == negInf && (o.Hi == -1 || o.Hi == 0)) {
@@ -540,6 +565,14 @@ func checkC06(c *Ctx) {
 						}
 					case strings.HasPrefix(n, "(*net/http.Request).") || strings.HasPrefix(n, "(*net/url.URL)."):
 						bad = append(bad, p.InstrPos(x)+": request data other than the client address is read: "+n)
+					}
+					if rc := Receiver(x); rc != nil && f == fn {
+						if _, isLock := asLockOp(x); !isLock && !strings.HasSuffix(n, "Backend).healthy") && !strings.HasSuffix(n, "Backend).GetActiveConnections") &&
+							!strings.HasPrefix(n, "(net/http.Header).") && !strings.HasPrefix(n, "(hash.Hash32).") || strings.HasPrefix(n, "(hash.Hash32).") && !c.P.Freshness().IsFresh(rc, 0) && !isLocalCallResult(rc) {
+							if strings.Contains(p.DescQ(rc, nil), "fld:loadbalancer."+typ+".") {
+								bad = append(bad, p.InstrPos(x)+": "+n+" is called on an object stored in the strategy and shared by concurrent picks (its state carries over between requests / is corrupted by overlapping ones)")
+							}
+						}
 					}
 					for _, cal := range p.Callees(x) {
 						if cal.Name() == "healthy" || cal.Name() == "RLock" {
@@ -705,4 +738,10 @@ func (c *Ctx) sameSlice(fn *ssa.Function, a, b ssa.Value) bool {
 		}
 	})
 	return !stored
+}
+
+// isLocalCallResult: v is the direct result of a call made in this function (e.g. fnv.New32a()).
+func isLocalCallResult(v ssa.Value) bool {
+	_, ok := stripConv(v).(*ssa.Call)
+	return ok
 }
